@@ -25,7 +25,8 @@ CONSTANTS Threads,        \* set of thread ids (model values or integers)
           MAXCELLS,       \* bound on the file length
           FIXED_CREATE,   \* TRUE: an end marker below the header size is treated as "not initialised"
           COMMIT_FIRST,   \* TRUE: (seeded design error) commit the index before appending
-          CRASHES         \* max number of crashes explored
+          CRASHES,        \* max number of crashes explored
+          MAY_MOVE        \* TRUE: growing the mapping may move it (mremap MAY_MOVE), as in the pinned design
 
 None == 0
 HDR == 1
@@ -133,7 +134,7 @@ GrowSetLen(t) ==
 GrowRemap(t) ==
     /\ pc[t] = "append" /\ flen > maplen
     /\ maplen' = flen
-    /\ base' = base + 1            \* mremap(MAY_MOVE): the address may change
+    /\ base' = (IF MAY_MOVE THEN base + 1 ELSE base)     \* mremap(MAY_MOVE): the address may change
     /\ UNCHANGED <<dur, isopen, wlock, pc, txn, off, snap, res, refs, crashes>>
     /\ Step(t, "es.grow.remapped")
 
